@@ -42,7 +42,7 @@ ASSUMPTIONS = (
 )
 EXPECTED_PROBES = ("replayed", "created", "expired-recreated", "invalidated-recreated", "cache-disabled-run", "dynamic-key",
                    "nested-cached-inside-cached", "recompiled", "body-raised", "backend-error", "cache-set-get",
-                   "two-templates-colliding-ids", "page-cached", "args-checked")
+                   "two-templates-colliding-ids", "page-cached", "args-checked", "base-template-section-created")
 
 URIS = ["/a-b.html", "/a_b.html", "/a/b.html", "/c.html"]
 
@@ -103,6 +103,13 @@ def generate(rng, tier, idx, force=None):
     else:
         rng.shuffle(uris)
     tmpls = [gen_template(rng, uris[i], i) for i in range(nt)]
+    base = None
+    if backend != "dogpile" and rng.random() < 0.35:
+        # a base template with a cached def; some templates inherit from it: its entry lives in the BASE
+        # template's cache and is shared by all children
+        base = {"timeout": rng.choice((None, None, 3))}
+        for t in tmpls:
+            t["inherit"] = rng.random() < 0.7
     if backend == "dogpile" or backend.startswith("sim"):
         for t in tmpls:
             for sec in all_sections(t):
@@ -148,7 +155,7 @@ def generate(rng, tier, idx, force=None):
     if rng.random() < 0.25:
         t0 = tmpls[0]
         ops.insert(0, ["invalidate_def", 0, rng.choice(t0["defs"])["name"]])
-    return {"engine": NAME, "property": PROPERTY, "backend": backend, "tmpls": tmpls, "ops": ops, "faults": []}
+    return {"engine": NAME, "property": PROPERTY, "backend": backend, "tmpls": tmpls, "ops": ops, "faults": [], "base": base}
 
 
 def all_sections(t):
@@ -225,8 +232,18 @@ def attr_args(args, with_dir=None):
     return s
 
 
+BASE_URI = "/base.html"
+
+
+def emit_base(base):
+    to = (' cache_timeout="%d"' % base["timeout"]) if base.get("timeout") else ""
+    return '<%%def name="bd()" cached="True"%s>BD(${tick(\'bd\')}${x})</%%def>BASE[${bd()}|${next.body()}]' % to
+
+
 def emit_template(t, scratch, backend):
     out = ""
+    if t.get("inherit"):
+        out += '<%%inherit file="%s"/>' % BASE_URI
     if t["page"]:
         p = t["page"]
         out += "<%page"
@@ -357,6 +374,17 @@ class Harness:
         self.cache_dir = os.path.join(root, "cache")
         os.makedirs(self.cache_dir)
         self.regions = {}
+        self.base = trace.get("base")
+        self.lk = None
+        self.B = len(self.tmpls)  # model index of the base template
+        if self.base:
+            import mako.lookup
+
+            kw0 = self.template_kwargs(None)
+            self.lk = mako.lookup.TemplateLookup(**kw0)
+            self.lk.put_string(BASE_URI, emit_base(self.base))
+            self.base_obj = self.lk.get_template(BASE_URI)
+            self.model.start[self.B] = self.base_obj.last_modified
         ids = {}
         for ti, t in enumerate(self.tmpls):
             self.compile(ti)
@@ -374,7 +402,7 @@ class Harness:
 
     # ---- templates
     def template_kwargs(self, ti):
-        t = self.tmpls[ti]
+        t = self.tmpls[ti] if ti is not None else {"targs": {}}
         cache_args = dict(t["targs"])
         b = self.backend
         kw = {}
@@ -395,6 +423,8 @@ class Harness:
             cache_args["region"] = "r1"
         kw["cache_args"] = cache_args
         kw["cache_enabled"] = self.enabled.get(ti, True)
+        if ti is not None and self.lk is not None:
+            kw["lookup"] = self.lk
         return kw
 
     def compile(self, ti):
@@ -516,7 +546,28 @@ class Harness:
         page = t["page"] if (t["page"] and t["page"]["cached"]) else None
         try:
             pkey = pk if (page and page["key"] == "ctx") else "render_body"
-            text = section(page, pkey, page_body, False)
+            if self.base and t.get("inherit"):
+                # the base template's body runs first; its cached def belongs to the BASE template's cache
+                B = self.B
+                bkey = (B, "render_bd")
+                ent = updates.get(bkey)
+                edge = False
+                if ent is None:
+                    ent, edge = m.valid(B, "render_bd", now)
+                if edge:
+                    edges[0] = True
+                if ent is not None:
+                    self.probe("replayed")
+                    bd = ent.text
+                else:
+                    bd = "BD(%s%s)" % (do_tick("bd"), x)
+                    updates[bkey] = Entry(bd, now, self.base.get("timeout"))
+                    self.probe("base-template-section-created")
+                text = "BASE[" + bd + "|"
+                text += section(page, pkey, page_body, False)
+                text += "]"
+            else:
+                text = section(page, pkey, page_body, False)
         except Boom:
             text = None
             # entries created by sections that completed before the raise stay; the abandoned ones store nothing
@@ -711,6 +762,13 @@ class Harness:
         """After a reported (or either-way) divergence: clear model and implementation for the templates
         involved so that the rest of the history is judged from a common state."""
         group = [ti] + list(self.colliding.get(ti, ()))
+        if self.base:
+            for key in [kk for kk in self.model.store if kk[0] == self.B]:
+                del self.model.store[key]
+            try:
+                self.base_obj.cache.invalidate_def("bd")
+            except Exception:
+                pass
         for tj in group:
             for key in [kk for kk in self.model.store if kk[0] == tj]:
                 del self.model.store[key]
@@ -828,6 +886,7 @@ def execute(trace, root):
         "sim_seconds": h.clock.covered,
         "nontrivial": nontrivial,
         "case_hash": stable_hash([trace["tmpls"], ops, trace["backend"]]),
-        "sample": {"backend": trace["backend"], "templates": {t["uri"]: emit_template(t, "", trace["backend"]) for t in trace["tmpls"]},
+        "sample": {"backend": trace["backend"], "base": trace.get("base"),
+                   "templates": {t["uri"]: emit_template(t, "", trace["backend"]) for t in trace["tmpls"]},
                    "ops": ops[:14]},
     }
